@@ -95,6 +95,48 @@ def parallel_entry_points(modules):
                     setattr(mod, name, make(fn, '%s.%s' % (mod.__name__.split('.')[-1], name)))
 
 
+def fork_map(worker, parts):
+    """worker(part) for every part, each in a forked child (the interpretive rules split their input corpus); results in order.  A worker may raise AnalysisBroken."""
+    import pickle, traceback
+    if os.environ.get('XV_JOBS', '') == '1' or len(parts) <= 1:
+        return [worker(p) for p in parts]
+    kids = []
+    for part in parts:
+        rfd, wfd = os.pipe()
+        pid = os.fork()
+        if pid:
+            os.close(wfd)
+            kids.append((pid, rfd))
+            continue
+        os.close(rfd)
+        try:
+            try:
+                out = ('ok', worker(part))
+            except AnalysisBroken as e:
+                out = ('broken', str(e))
+            except BaseException:
+                out = ('error', traceback.format_exc())
+            with os.fdopen(wfd, 'wb') as fh:
+                pickle.dump(out, fh)
+        finally:
+            os._exit(0)
+    outs = []
+    for pid, rfd in kids:
+        with os.fdopen(rfd, 'rb') as fh:
+            data = fh.read()
+        os.waitpid(pid, 0)
+        try:
+            outs.append(pickle.loads(data))
+        except Exception:
+            outs.append(('error', 'no result from a worker (%d bytes)' % len(data)))
+    for o in outs:
+        if o[0] == 'broken':
+            raise AnalysisBroken(o[1])
+        if o[0] == 'error':
+            raise AnalysisBroken('internal error in a worker: ' + o[1][-1500:])
+    return [o[1] for o in outs]
+
+
 class Rule:
     """one clause rule of a property; collects instances"""
 
